@@ -371,6 +371,7 @@ func c09(r *ev.Result, tier string) {
 	c09Descriptors(r, root)
 	c09StalledDownload(r, root)
 	c09NoticeBurst(r, root)
+	c09EndpointDirs(r, root)
 	r.Set("responses_by_config_and_status", statuses)
 	r.Set("targets", len(targets))
 	r.Sample(5, c09Case{Config: "dir:nested", Target: "//sub/%2e%2e/..%2f/OUTSIDE-canary.txt"})
@@ -753,4 +754,66 @@ func c09NoticeBurst(r *ev.Result, root string) {
 		r.Violate(ev.Violation{Signature: "notice-burst/request-not-reported", Kind: "c09", Replay: c09Case{Config: "dir:flat", Target: "/burst-... (4 clients x 60 requests, notices taken off the channel afterwards)"},
 			What: fmt.Sprintf("%d requests answered while the operator channel was not being read; afterwards %d of them have no notice of their own (e.g. %q), and notices name paths nobody requested: %q", len(sent), missing, trunc80(example), odd)})
 	}
+}
+
+// c09EndpointDirs: a tree with directories named like the shell endpoints
+// c, i and o: what lies below them (/c/notes.txt, /i/abc/in.txt - more
+// segments than the endpoint has) are files like any others, and with no files
+// served such paths are plain 404s.  (/io/ is different: the program gives
+// the whole subtree to the bidirectional endpoint.)
+func c09EndpointDirs(r *ev.Result, root string) {
+	tree := filepath.Join(root, "eps")
+	files := map[string]string{
+		"c/notes.txt":   "IN:eps:c/notes.txt\n",
+		"c/i/o":         "IN:eps:c/i/o\n",
+		"i/abc/in.txt":  "IN:eps:i/abc/in.txt\n",
+		"o/abc/out.txt": "IN:eps:o/abc/out.txt\n",
+	}
+	for rel, content := range files {
+		p := filepath.Join(tree, rel)
+		os.MkdirAll(filepath.Dir(p), 0o755)
+		os.WriteFile(p, []byte(content), 0o644)
+	}
+	defer os.RemoveAll(tree)
+	n := 0
+	for _, served := range []bool{true, false} {
+		cfg := hworld.Config{}
+		if served {
+			cfg.FDir = tree
+		}
+		w, err := hworld.Start(cfg)
+		if nil != err {
+			ev.Broken("%s", err)
+		}
+		for rel, content := range files {
+			c, err := w.Dial("")
+			if nil != err {
+				ev.Broken("%s", err)
+			}
+			w.Drain()
+			res, err := c.Do(hworld.Get("/"+rel, w.Addr, "Connection: close"))
+			c.Close()
+			notices := w.Drain()
+			n++
+			what := ""
+			switch {
+			case nil != err:
+				what = fmt.Sprintf("no answer (%v)", err)
+			case served && (200 != res.Status || content != string(res.Body)):
+				what = fmt.Sprintf("status %d, body %q instead of the file", res.Status, trunc80(string(res.Body)))
+			case served && 1 != strings.Count(hworld.NoticeText(notices), "File requested: /"+rel):
+				what = "the file came but the request was not announced once as a file request: " + trunc80(hworld.NoticeText(notices))
+			case !served && 404 != res.Status:
+				what = fmt.Sprintf("status %d, body %q with no files served", res.Status, trunc80(string(res.Body)))
+			}
+			if "" != what {
+				r.Violate(ev.Violation{Signature: fmt.Sprintf("path-below-endpoint-name/served=%v", served), Kind: "c09", Replay: c09Case{Config: map[bool]string{true: "dir:eps", false: "unset"}[served], Target: "/" + rel},
+					What: fmt.Sprintf("GET /%s (a tree whose directories are named c, i, o; files served: %v): %s", rel, served, what)})
+			}
+		}
+		w.Stop()
+	}
+	r.Add(n)
+	r.AddDistinct(n)
+	r.Set("paths_below_endpoint_names", n)
 }
